@@ -79,4 +79,20 @@ var ExtraSeeds = []string{
 	"WEBVTT\n\n00:01.000 --> 00:04.000\nhi", "1\n00:02:16,612 --> 00:02:19,376\nSenator, we're making\n", "BEGIN:VCARD\nVERSION:3.0\n", "BEGIN:VCALENDAR\r\nVERSION:2.0\r\n",
 	"{\\rtf1\\ansi}", "WARC/1.0\r\nWARC-Type: warcinfo\r\n", "%PDF-1.7\n", "\x0a%PDF-1.7", "%FDF-1.2", "%!PS-Adobe-3.0",
 	"", " ", "\n", "a", "\x00", "\xFF",
+	// every signature variant of detectors that accept several
+	"\xFE\xED\xFA\xCE\x00\x00\x00\x0c", "\xCE\xFA\xED\xFE\x07\x00\x00\x00", "\xFE\xED\xFA\xCF\x01\x00\x00\x07", "\xCF\xFA\xED\xFE\x07\x00\x00\x01",
+	"\xFF\x0A\x00\x00", "\x00\x00\x00\x0cJXL\x20\x0d\x0a\x87\x0a", "ID3\x03\x00\x00\x00\x00\x00\x00", "\xFF\xFB\x90\x00", "\xFF\xF3\x90\x00", "\xFF\xE3\x90\x00",
+	"\x28\xB5\x2F\xFD\x00", "\x50\x2A\x4D\x18\x00", "070707000", "070701000", "070702000", "Rar!\x1A\x07\x00", "Rar!\x1A\x07\x01\x00",
+	"\xed\xab\xee\xdb\x03", "drpm\x00", "CWS\x09", "FWS\x09", "ZWS\x0d", "II\x2A\x00\x08", "MM\x00\x2A\x00", "\x00\x00\x01\x00\x01", "\x00\x00\x02\x00\x01",
+	"glTF\x02\x00\x00\x00", "glTF\x01\x00\x00\x00", "GIF87a", "GIF89a", "\xFF\xF1\x50", "\xFF\xF9\x50", "WARC/1.1\r\n", "-----BEGIN PKCS7-----\n",
+	"\x30\x80\x06\x09\x2A\x86\x48\x86\xF7\x0D\x01\x07\x02" + pad(10), "\x30\x81\x10\x06\x09\x2A\x86\x48\x86\xF7\x0D\x01\x07\x02" + pad(10), "\x30\x83\x10\x00\x00\x06\x09\x2A\x86\x48\x86\xF7\x0D\x01\x07\x02" + pad(10),
+	"AC1.40", "AC1032", "AC1015", "ttcf\x00\x01\x00\x00", "ttcf\x00\x02\x00\x00", "ISc(\x00\x00\x00\x01", "ISc(\x00\x00\x00\x04",
+	"TZif\x00" + pad(31) + "\x00\x00\x00\x01" + pad(8), "TZif3" + pad(31) + "\x00\x00\x00\x02" + pad(8), "\x00\x00\x01\xB3\x00", "\x00\x00\x01\xBA\x44",
+	"\x00\x00\x00\x14ftypqt  \x00\x00\x00\x00", "\x00\x00\x00\x08wide\x00\x00\x00\x00mdat", "\x00\x00\x00\x10moov\x00\x00\x00\x00", "\x00\x00\x00\x10free\x00\x00\x00\x00",
+	"\x00\x00\x00\x0cjP  \x0d\x0a\x87\x0a\x00\x00\x00\x14ftypjpx ", "\x00\x00\x00\x0cjP  \x0d\x0a\x87\x0a\x00\x00\x00\x14ftypjpm ",
+	"AT&TFORM\x00\x00\x00\x00DJVU", "AT&TFORM\x00\x00\x00\x00DJVI", "AT&TFORM\x00\x00\x00\x00THUM", "OggS\x00\x02" + pad(22) + "OpusHead\x01", "OggS\x00\x02" + pad(22) + "fishead\x00\x03",
+	"\x03\x0C\x1F\x00" + pad(8) + "\x00\x00" + pad(14) + "\x00" + pad(1) + "\x00\x00" + pad(40), "\x83\x01\x01\x00" + pad(70),
+	"<?php\n", "<? \n", "#! /usr/bin/env node\n", "#!/usr/bin/lua\n", "#!/usr/bin/perl -w\n", "#!/usr/bin/env tclsh\n", "#!/usr/bin/wish\n",
+	"<?xml version=\"1.0\"?><kml xmlns=\"http://earth.google.com/kml/2.1\">", "<?xml version=\"1.0\"?><x xmlns:gml=\"http://www.opengis.net/gml/3.2\">", "<?xml version=\"1.0\"?><Ontology xmlns=\"http://www.w3.org/2002/07/owl#\">",
+	"\xEF\xBB\xBFWEBVTT\n", "WEBVTT", "\x0a%PDF-1.4", "\xef\xbb\xbf%PDF-1.4",
 }
